@@ -22,10 +22,10 @@ func init() {
 	})
 	reg("os.Lstat", intrinsics["os.Stat"])
 	reg("os.IsNotExist", func(m *Machine, fn *ssa.Function, a []Value) Value {
-		return errKind(a[0]) == "ENOENT"
+		return errKind(a[0]) == "ENOENT" || errKind(a[0]) == "sentinel:ENOENT"
 	})
 	reg("os.IsExist", func(m *Machine, fn *ssa.Function, a []Value) Value {
-		return errKind(a[0]) == "EEXIST"
+		return errKind(a[0]) == "EEXIST" || errKind(a[0]) == "sentinel:EEXIST"
 	})
 	reg("os.MkdirAll", func(m *Machine, fn *ssa.Function, a []Value) Value { return m.fsMkdirAll(a[0]) })
 	reg("os.Mkdir", func(m *Machine, fn *ssa.Function, a []Value) Value {
@@ -114,13 +114,26 @@ func init() {
 		n.MTime = m.now()
 		return nilErr()
 	}
+	lenOf := func(m *Machine, d Value) Value {
+		switch x := d.(type) {
+		case string:
+			return int64(len(x))
+		case *sym.Str:
+			if x.Len.IsConst() {
+				return int64(x.Len.Val)
+			}
+			return m.C.Zext(x.Len, 32)
+		}
+		return int64(1)
+	}
 	reg("(*os.File).Write", func(m *Machine, fn *ssa.Function, a []Value) Value {
-		e := writeTo(m, a[0].(*Ext), m.bytesToData(a[1]))
-		return Tuple{int64(1), e}
+		d := m.bytesToData(a[1])
+		e := writeTo(m, a[0].(*Ext), d)
+		return Tuple{lenOf(m, d), e}
 	})
 	reg("(*os.File).WriteString", func(m *Machine, fn *ssa.Function, a []Value) Value {
 		e := writeTo(m, a[0].(*Ext), a[1])
-		return Tuple{int64(1), e}
+		return Tuple{lenOf(m, a[1]), e}
 	})
 	reg("(*os.File).Close", func(m *Machine, fn *ssa.Function, a []Value) Value { return nilErr() })
 	reg("(*os.File).Sync", func(m *Machine, fn *ssa.Function, a []Value) Value { return nilErr() })
@@ -311,15 +324,69 @@ func init() {
 			m.unsupported("errors.As target %T", tgt.V)
 		}
 		if pt, ok := tgt.T.Underlying().(*types.Pointer); ok {
-			if types.Identical(pt.Elem(), err.T) {
-				*p = err.V
-				return true
+			// walk the %w chain
+			cur := err
+			for depth := 0; depth < 10 && cur.T != nil; depth++ {
+				if types.Identical(pt.Elem(), cur.T) {
+					*p = cur.V
+					return true
+				}
+				// file-system errors are *fs.PathError natively
+				if ep, isP := types.Unalias(pt.Elem()).(*types.Pointer); isP {
+					if nm, isN := types.Unalias(ep.Elem()).(*types.Named); isN && nm.Obj().Name() == "PathError" {
+						switch k := errKind(cur); k {
+						case "ENOENT", "EEXIST", "ENOTDIR", "EISDIR", "EBADF", "ENOTEMPTY", "EPERM":
+							msg, _ := cur.V.(*Ext).F["msg"].(string)
+							op, path := msg, ""
+							if i := strings.Index(msg, " "); i > 0 {
+								op = msg[:i]
+								path = msg[i+1:]
+								if j := strings.Index(path, ": "); j >= 0 {
+									path = path[:j]
+								}
+							}
+							pe := new(Value)
+							*pe = Struct{op, path, m.errVal("sentinel:"+k, strings.ToLower(k))}
+							*p = pe
+							return true
+						}
+					}
+				}
+				e, isE := cur.V.(*Ext)
+				if !isE || e == nil || e.F["wrapped"] == nil {
+					break
+				}
+				w, isI := e.F["wrapped"].(Iface)
+				if !isI {
+					break
+				}
+				cur = w
 			}
 		}
 		return false
 	})
 	reg("errors.Is", func(m *Machine, fn *ssa.Function, a []Value) Value {
-		return m.eqValue(a[0], a[1])
+		// the chain of err (via %w) is compared with the target; a file-system error matches
+		// the sentinel of its kind (os.ErrNotExist, os.ErrExist, ...)
+		cur := a[0]
+		for depth := 0; depth < 10; depth++ {
+			ci, ok := cur.(Iface)
+			if !ok || ci.T == nil {
+				return false
+			}
+			if eq, isB := m.eqValue(cur, a[1]).(bool); isB && eq {
+				return true
+			}
+			if k := errKind(a[1]); strings.HasPrefix(k, "sentinel:") && errKind(cur) == strings.TrimPrefix(k, "sentinel:") {
+				return true
+			}
+			e, ok := ci.V.(*Ext)
+			if !ok || e == nil || e.F["wrapped"] == nil {
+				return false
+			}
+			cur = e.F["wrapped"]
+		}
+		return false
 	})
 
 	// ------------------------------------------------------------ encoding/json (snapshot model)
